@@ -78,7 +78,7 @@ def gen_cases(ctx):
         small += [(2, [2, 2], [2, 2]), (1, [2, 1], [2, 1]), (3, [2, 2], [4]), (2, [1, 1, 1], [1, 2]), (1, [3], [1, 1, 1])]
     for k, ns, counts in small:
         bound = ctx.pick(2, 3)
-        cases.append(pcq_case(k, item_lists(len(ns), ns), counts, "dfs:%d:%d:%d:%d" % (bound, ctx.pick(1500, 60000), ctx.pick(6, 40), rng.below(1 << 30))))
+        cases.append(pcq_case(k, item_lists(len(ns), ns), counts, "dfs:%d:%d:%d:%d" % (bound, ctx.pick(1500, 25000), ctx.pick(6, 40), rng.below(1 << 30))))
     # random and PCT schedules on larger configurations
     for _ in range(ctx.pick(120, 3000)):
         k, items, counts = gen_config(rng, 4, 4, 4, 5)
